@@ -537,6 +537,11 @@ class Body:
                     continue
                 seen.add((r, p))
                 out.add((r, p))
+                if r[0] == "agg" and d > 0:
+                    st = self.blocks[r[1]]["stmts"][r[2]]
+                    for o in st["rv"]["ops"]:
+                        if o["k"] in ("copy", "move"):
+                            work.append((o["place"], d - 1))
                 if r[0] == "call" and d > 0:
                     t = self.term(r[1])
                     for a in t["args"]:
